@@ -271,6 +271,20 @@ func runCase(c acase) (res result) {
 			}
 			os.Setenv(key, v)
 			s.Preconditions = []dag.Condition{{Condition: "$" + key, Expected: "1"}}
+			// same flavours as go/harness/sched (nodeCase.Pre): 4 / 5 the condition cannot be evaluated (failing command
+			// substitution), 6 / 7 / 8 `re:` pattern that matches / does not match / is invalid
+			switch nc.Pre {
+			case 4:
+				s.Preconditions[0].Condition = "`false`"
+			case 5:
+				s.Preconditions[0].Condition = "`/nonexistent/verif-no-such-command`"
+			case 6:
+				s.Preconditions[0].Expected = "re:^[1-9]$"
+			case 7:
+				s.Preconditions[0].Expected = "re:^[2-9]$"
+			case 8:
+				s.Preconditions[0].Expected = "re:[1"
+			}
 		}
 		d.Steps = append(d.Steps, s)
 	}
@@ -495,6 +509,15 @@ type rcase struct {
 	// the signalOnStop of step 0 goes through the LOADER first: a one-step YAML definition with this spelling is
 	// loaded with dag.LoadYAML; rejected => nothing runs (result.rejected); accepted => the step gets what the loader stored
 	YamlSig string `json:"yamlSig,omitempty"`
+	// stopVia == "timeout": nobody asks for a stop; the DAG's own Timeout (timeoutMs) elapses while the steps run. endedMs is
+	// then counted from the instant the timeout elapses (start of Agent.Run + timeoutMs).
+	TimeoutMs int `json:"timeoutMs,omitempty"`
+	MaxActive int `json:"maxActive,omitempty"` // DAG.MaxActiveRuns (0 = unlimited)
+	// extra steps that can only start after the stop/timeout: `late` steps depend on step 0, `queued` steps are independent
+	// (held back by maxActive). Each appends its name to a file when its process really starts.
+	Late   int `json:"late,omitempty"`
+	Queued int `json:"queued,omitempty"`
+	WaitMs int `json:"waitMs,omitempty"` // give up waiting for the end of the run cleanupMs + waitMs after the stop/timeout (default 8000)
 }
 
 type rresult struct {
@@ -507,6 +530,13 @@ type rresult struct {
 	Panic    string   `json:"panic,omitempty"`
 	Rejected bool     `json:"rejected,omitempty"`
 	Stored   string   `json:"stored,omitempty"` // signalOnStop as the loader stored it
+	// timeout leg
+	Started   []string `json:"started,omitempty"`   // late/queued steps whose process really started: "<name>@<ms after the start of Agent.Run>"
+	LeftGroup []string `json:"leftGroup,omitempty"` // live processes in the process groups of the steps 300 ms after the run ended / the wait gave up
+	RunErr    string   `json:"runErr,omitempty"`    // what Agent.Run returned
+	TotalMs   int64    `json:"totalMs,omitempty"`   // start of Agent.Run -> its return
+	LeftAtEnd int      `json:"leftAtEnd,omitempty"` // live processes in the steps' process groups at the instant the run ended (or the wait gave up)
+	Names     []string `json:"names,omitempty"`     // step names, parallel to st
 }
 
 func countToken(tok string) int {
@@ -522,6 +552,108 @@ func countToken(tok string) int {
 		}
 	}
 	return n
+}
+
+// procStat: state, parent, pgrp of a pid ("" / 0 when it is gone)
+func procStat(pid string) (string, int, int) {
+	b, err := os.ReadFile("/proc/" + pid + "/stat")
+	if err != nil {
+		return "", 0, 0
+	}
+	t := string(b)
+	if i := strings.LastIndex(t, ")"); i >= 0 {
+		f := strings.Fields(t[i+1:])
+		if len(f) >= 3 {
+			var pp, g int
+			fmt.Sscan(f[1], &pp)
+			fmt.Sscan(f[2], &g)
+			return f[0], pp, g
+		}
+	}
+	return "", 0, 0
+}
+
+// groupWatch: every step is started in its own process group (Setpgid); its leader is a child of this process (the agent runs
+// in-process) and carries the case token in its command line until it execs something else; children forked by the shell
+// (`sleep 30`) do NOT carry it. The watch collects the groups of all children of this process and of all token processes while
+// the run goes on, so that the members of those groups can be counted (and killed) after the leader is gone.
+type groupWatch struct {
+	mu   sync.Mutex
+	tok  string
+	pg   map[int]bool
+	stop chan struct{}
+}
+
+func newGroupWatch(tok string) *groupWatch {
+	w := &groupWatch{tok: tok, pg: map[int]bool{}, stop: make(chan struct{})}
+	go func() {
+		for {
+			w.scan()
+			select {
+			case <-w.stop:
+				return
+			case <-time.After(40 * time.Millisecond):
+			}
+		}
+	}()
+	return w
+}
+
+func (w *groupWatch) scan() {
+	ents, _ := os.ReadDir("/proc")
+	own, me := syscall.Getpgrp(), os.Getpid()
+	for _, e := range ents {
+		if e.Name()[0] < '0' || e.Name()[0] > '9' {
+			continue
+		}
+		_, pp, g := procStat(e.Name())
+		if g <= 1 || g == own {
+			continue
+		}
+		hit := pp == me
+		if !hit {
+			b, err := os.ReadFile("/proc/" + e.Name() + "/cmdline")
+			hit = err == nil && strings.Contains(string(b), w.tok)
+		}
+		if hit {
+			w.mu.Lock()
+			w.pg[g] = true
+			w.mu.Unlock()
+		}
+	}
+}
+
+// alive: live (non-zombie) processes in the collected groups, as "pid:cmdline"
+func (w *groupWatch) alive() []string {
+	w.mu.Lock()
+	defer w.mu.Unlock()
+	var out []string
+	ents, _ := os.ReadDir("/proc")
+	for _, e := range ents {
+		if e.Name()[0] < '0' || e.Name()[0] > '9' {
+			continue
+		}
+		st, _, g := procStat(e.Name())
+		if st != "" && st != "Z" && st != "X" && w.pg[g] {
+			b, _ := os.ReadFile("/proc/" + e.Name() + "/cmdline")
+			c := strings.TrimSpace(strings.ReplaceAll(string(b), "\x00", " "))
+			if len(c) > 60 {
+				c = c[:60]
+			}
+			out = append(out, e.Name()+":"+c)
+		}
+	}
+	return out
+}
+
+func (w *groupWatch) killAll() {
+	close(w.stop)
+	w.scan()
+	w.mu.Lock()
+	defer w.mu.Unlock()
+	for g := range w.pg {
+		syscall.Kill(-g, syscall.SIGKILL)
+	}
 }
 
 func killToken(tok string) {
@@ -551,6 +683,8 @@ func runReal(c rcase) (res rresult) {
 	defer os.RemoveAll(root)
 	tok := "VERIFTOK" + filepath.Base(root)
 	defer killToken(tok)
+	gw := newGroupWatch(tok)
+	defer gw.killAll()
 	dagsDir, dataDir := filepath.Join(root, "dags"), filepath.Join(root, "data")
 	os.MkdirAll(dagsDir, 0o755)
 	lg := logger.NewLogger(logger.NewLoggerArgs{Quiet: true})
@@ -583,6 +717,19 @@ func runReal(c rcase) (res rresult) {
 		}
 		d.Steps = append(d.Steps, st)
 	}
+	startedFile := filepath.Join(root, "started.txt")
+	for i := 0; i < c.Late; i++ {
+		n := fmt.Sprintf("late%d", i)
+		d.Steps = append(d.Steps, dag.Step{Name: n, Command: "sh", Args: []string{"-c", "echo " + n + "@$(date +%s%N) >> " + startedFile + "; sleep 1", tok}, Depends: []string{"s0"}})
+	}
+	for i := 0; i < c.Queued; i++ {
+		n := fmt.Sprintf("queued%d", i)
+		d.Steps = append(d.Steps, dag.Step{Name: n, Command: "sh", Args: []string{"-c", "echo " + n + "@$(date +%s%N) >> " + startedFile + "; sleep 1", tok}})
+	}
+	if c.TimeoutMs > 0 {
+		d.Timeout = time.Duration(c.TimeoutMs) * time.Millisecond
+	}
+	d.MaxActiveRuns = c.MaxActive
 	mk := func(name string) *dag.Step {
 		return &dag.Step{Name: name, Command: "sh", Args: []string{"-c", "echo " + name + " >> " + marks}}
 	}
@@ -591,6 +738,8 @@ func runReal(c rcase) (res rresult) {
 	os.MkdirAll(logDir, 0o755)
 	ag := agent.New("req-"+c.ID, d, lg, logDir, filepath.Join(logDir, "agent.log"), cli, ds, &agent.Options{})
 	finished := make(chan struct{})
+	var runErr error
+	tStart := time.Now()
 	go func() {
 		defer func() {
 			if r := recover(); r != nil {
@@ -598,30 +747,57 @@ func runReal(c rcase) (res rresult) {
 			}
 			close(finished)
 		}()
-		_ = ag.Run(context.Background())
+		runErr = ag.Run(context.Background())
 	}()
-	time.Sleep(time.Duration(c.DelayMs) * time.Millisecond)
-	t0 := time.Now()
-	if c.StopVia == "api" {
-		go ag.HandleHTTP(&respW{}, &http.Request{Method: "POST", URL: &url.URL{Path: "/stop"}})
+	var t0 time.Time
+	waitMs := 8000
+	if c.WaitMs > 0 {
+		waitMs = c.WaitMs
+	}
+	if c.StopVia == "timeout" {
+		t0 = tStart.Add(time.Duration(c.TimeoutMs) * time.Millisecond)
+		time.Sleep(time.Until(t0))
 	} else {
-		go ag.Signal(syscall.SIGTERM)
+		time.Sleep(time.Duration(c.DelayMs) * time.Millisecond)
+		t0 = time.Now()
+		if c.StopVia == "api" {
+			go ag.HandleHTTP(&respW{}, &http.Request{Method: "POST", URL: &url.URL{Path: "/stop"}})
+		} else {
+			go ag.Signal(syscall.SIGTERM)
+		}
 	}
 	select {
 	case <-finished:
 		res.EndedMs = time.Since(t0).Milliseconds()
-	case <-time.After(time.Duration(c.CleanupMs)*time.Millisecond + 8*time.Second):
+		res.TotalMs = time.Since(tStart).Milliseconds()
+		if runErr != nil {
+			res.RunErr = runErr.Error()
+		}
+	case <-time.After(time.Until(t0.Add(time.Duration(c.CleanupMs+waitMs) * time.Millisecond))):
 	}
+	res.LeftAtEnd = len(gw.alive())
 	time.Sleep(300 * time.Millisecond)
+	res.LeftGroup = gw.alive()
 	res.Left = countToken(tok)
 	if ps, err := jsondb.New(dataDir, false).ReadStatusToday(d.Location); err == nil && ps != nil {
 		res.Overall = ps.Status.String()
 		for _, nd := range ps.Nodes {
 			res.St = append(res.St, nd.Status.String())
+			res.Names = append(res.Names, nd.Step.Name)
 		}
 	}
 	if b, err := os.ReadFile(marks); err == nil {
 		res.Handlers = strings.Fields(string(b))
+	}
+	if b, err := os.ReadFile(startedFile); err == nil {
+		for _, f := range strings.Fields(string(b)) {
+			var ns int64
+			if i := strings.Index(f, "@"); i >= 0 {
+				fmt.Sscan(f[i+1:], &ns)
+				f = fmt.Sprintf("%s@%d", f[:i], (ns-tStart.UnixNano())/1e6)
+			}
+			res.Started = append(res.Started, f)
+		}
 	}
 	return
 }
